@@ -233,6 +233,7 @@ def cmp_prop(ctx, rel, cname, pname, kind, spec_src, opts=None):
     if f is None:
         return ctx.err(construct, 'anchor vanished: property %s of %s' % (pname, cname), rel)
     where = '%s:%d %s.%s' % (rel, f.lineno, cname, pname)
+    ctx.analysed.add('%s::%s.%s' % (rel, cname, pname))
 
     def go():
         got = ctx.pe(rel, opts=opts).run_function(f).term()
